@@ -103,6 +103,13 @@ pub fn run(input: &mut dyn BufRead, out: &mut dyn Write, _args: &[String]) -> R 
                     .iter()
                     .map(|part| {
                         let mut ex = Http2FingerprintExtractor::new();
+                        // {"pre": k, "cs": [...]}: the extractor has been used before -- it was given the first k octets (a connection that
+                        // died there) and then reset(); the chunks that follow are a new connection
+                        let (part, pre) = if part.is_object() { (&part["cs"], part["pre"].as_u64()) } else { (part, None) };
+                        if let Some(k) = pre {
+                            let _ = guarded(|| ex.add_bytes(&b[..(k as usize).min(b.len())]));
+                            ex.reset();
+                        }
                         let mut pos = 0usize;
                         let outs: Vec<Value> = arr(part)
                             .iter()
